@@ -104,6 +104,10 @@ Definition run_exp (k : tkind) (b : basedist) (q qA : T) : cerr + list (list (op
   | inr (dsb, db) => inr (expected_pvalues dsb db)
   end.
 
+(* the expected band depends on the base distribution and on qA only *)
+Lemma run_exp_indep : forall k k' b q q' qA, run_exp k b q qA = run_exp k' b q' qA.
+Proof. reflexivity. Qed.
+
 Definition CLsb_of (r : cerr + (option T * option T * option T)) := match r with inr (a, _, _) => a | _ => None end.
 Definition CLb_of (r : cerr + (option T * option T * option T)) := match r with inr (_, b, _) => b | _ => None end.
 Definition CLs_of (r : cerr + (option T * option T * option T)) := match r with inr (_, _, c) => c | _ => None end.
